@@ -48,10 +48,35 @@ type InflightRequest struct {
 	ID         uint64
 
 	followerCount atomic.Int32
+
+	// mu orders the registration of followers against the leader finishing: once finished is set
+	// no follower can register any more (it looks the key up again instead), so a follower the
+	// leader did not see in its HasFollowers check can never end up waiting on Done.
+	mu       sync.Mutex
+	finished bool
 }
 
 func (r *InflightRequest) AddFollower() {
 	r.followerCount.Add(1)
+}
+
+// tryAddFollower registers a follower unless the leader already finished.
+func (r *InflightRequest) tryAddFollower() bool {
+	r.mu.Lock()
+	defer r.mu.Unlock()
+	if r.finished {
+		return false
+	}
+	r.followerCount.Add(1)
+	return true
+}
+
+// markFinished closes the registration and reports whether any follower registered.
+func (r *InflightRequest) markFinished() bool {
+	r.mu.Lock()
+	defer r.mu.Unlock()
+	r.finished = true
+	return r.followerCount.Load() > 0
 }
 
 func (r *InflightRequest) HasFollowers() bool {
@@ -90,16 +115,23 @@ func (r *InboundRequestSingleFlight) GetOrCreate(ctx *Context, response *GraphQL
 
 	shard := r.shardFor(key)
 
-	request := &InflightRequest{
-		Done: make(chan struct{}),
-		ID:   key,
-	}
+	for {
+		request := &InflightRequest{
+			Done: make(chan struct{}),
+			ID:   key,
+		}
 
-	inflight, shared := shard.m.LoadOrStore(key, request)
-	if shared {
+		inflight, shared := shard.m.LoadOrStore(key, request)
+		if !shared {
+			return request, nil
+		}
 		request = inflight.(*InflightRequest)
 		verifYield("inbound.follower.beforeRegister", int64(key), 0)
-		request.AddFollower()
+		if !request.tryAddFollower() {
+			// The leader finished between our lookup and our registration. It removed the entry
+			// before it closed the registration and did not prepare its result for us: look up again.
+			continue
+		}
 		select {
 		case <-request.Done:
 			if request.Err != nil {
@@ -110,8 +142,6 @@ func (r *InboundRequestSingleFlight) GetOrCreate(ctx *Context, response *GraphQL
 			return nil, ctx.ctx.Err()
 		}
 	}
-
-	return request, nil
 }
 
 func (r *InboundRequestSingleFlight) FinishOk(req *InflightRequest, data []byte) {
@@ -121,7 +151,7 @@ func (r *InboundRequestSingleFlight) FinishOk(req *InflightRequest, data []byte)
 	shard := r.shardFor(req.ID)
 	shard.m.Delete(req.ID)
 	verifYield("inbound.leader.afterDelete", int64(req.ID), 0)
-	if req.HasFollowers() {
+	if req.markFinished() {
 		// optimization to only copy when we actually have to
 		req.Data = make([]byte, len(data))
 		copy(req.Data, data)
@@ -136,6 +166,7 @@ func (r *InboundRequestSingleFlight) FinishErr(req *InflightRequest, err error) 
 	}
 	shard := r.shardFor(req.ID)
 	shard.m.Delete(req.ID)
+	req.markFinished()
 	req.Err = err
 	verifYield("inbound.leaderErr.beforeClose", int64(req.ID), 0)
 	close(req.Done)
